@@ -183,6 +183,9 @@ private:
         bool self_seed{false};
         bool self_leecher{false};
     };
+    // Handshakes arrive on the transport accept thread and are also started from the serve loop (bootstrap handshakes
+    // ahead of a chunk request); the records are shared by both.
+    mutable std::mutex handshake_mutex_;
     std::unordered_map<std::string, HandshakeRecord> handshake_state_;
     std::vector<std::string> cleanup_notifications_;
     std::chrono::steady_clock::time_point last_cleanup_{};
